@@ -377,7 +377,11 @@ def check_enum(cx, fn, rep, facts):
         bt = list(binders)[0]
         si = binder_of_selection_into(S, bt)
         is_tuple_term = ('proj', 1, si[1])
-        tup = [x[2] for x in atoms if x[0] == 'truth' and x[1] == is_tuple_term]
+        if si[2] == 'flag':
+            tup = [x[2] for x in atoms if x[0] == 'truth' and x[1] == is_tuple_term]
+        else:
+            # the second component is Some(<the field's own name>) for a named field
+            tup = [not x[2] for x in atoms if x[0] == 'some' and x[1] == is_tuple_term]
         if len(tup) != 1:
             S.bad('SUM-INTO', 'enum-arm-guard', 'the arm form is not selected by the tuple/named flag of the designated field', a)
             ok = False
@@ -405,8 +409,17 @@ def check_enum(cx, fn, rep, facts):
         else:
             okp = p['k'] == 'Struct' and len(p['fields']) == 1 and p['fields'][0]['shorthand'] and marker_of_pat(p['fields'][0]['pat']) and not p['rest']
             kids = S.kids(a, marker_of_pat(p['fields'][0]['pat'])) if okp else []
-            okb = len(kids) == 1 and kids[0].ast is not None and kids[0].cat == 'fieldpats' and len(kids[0].ast['fields']) == 1 and kids[0].ast['rest'] and kids[0].ast['fields'][0]['shorthand'] \
-                and marker_of_pat(kids[0].ast['fields'][0]['pat']) and S.hole_term(kids[0], marker_of_pat(kids[0].ast['fields'][0]['pat'])) == bt
+            okb = len(kids) == 1 and kids[0].ast is not None and kids[0].cat == 'fieldpats' and len(kids[0].ast['fields']) == 1 and kids[0].ast['rest'] \
+                and marker_of_pat(kids[0].ast['fields'][0]['pat']) and S.hole_term(kids[0], marker_of_pat(kids[0].ast['fields'][0]['pat'])) == bt \
+                and not kids[0].ast['fields'][0]['pat'].get('by_ref')
+            if okb and si[2] == 'flag':
+                # `{ <field name>, .. }`: the binder is the field's own name
+                okb = kids[0].ast['fields'][0]['shorthand']
+            elif okb:
+                # `{ <field name>: <binder>, .. }`
+                fp = kids[0].ast['fields'][0]
+                okb = not fp['shorthand'] and is_marker(str(fp.get('member'))) \
+                    and S.hole_term(kids[0], marker_name(fp['member'])) == ('some_of', is_tuple_term)
             if not (okp and okb):
                 S.bad('SUM-INTO', 'enum-named-pattern', 'the named pattern is not `{ <designated field name>, .. }`', a)
                 ok = False
@@ -435,11 +448,18 @@ def binder_of_selection_into(S, bt):
     if len(some) != 1 or len(none) != 1:
         return None
     a, b = some[0], none[0]
-    if not (isinstance(a, tuple) and a[0] == 'tuple' and a[1] == ('some_of', scrut) and a[2] == ('lit', 'Bool', False)):
+    if not (isinstance(a, tuple) and a[0] == 'tuple' and len(a) == 3 and isinstance(b, tuple) and b[0] == 'tuple' and len(b) == 3):
         return None
-    if not (isinstance(b, tuple) and b[0] == 'tuple' and b[1] == ('format_ident', '_{}', ('proj', 0, sel)) and b[2] == ('lit', 'Bool', True)):
+    if b[1] != ('format_ident', '_{}', ('proj', 0, sel)):
         return None
-    return sel, m
+    # form 'flag': (the field's own name | _<index>, is_tuple)
+    if a[1] == ('some_of', scrut) and a[2] == ('lit', 'Bool', False) and b[2] == ('lit', 'Bool', True):
+        return sel, m, 'flag'
+    # form 'real': (a name derived from the field's name | _<index>, Some(the field's own name) | None)
+    if isinstance(a[1], tuple) and a[1][0] == 'format_ident' and len(a[1]) == 3 and isinstance(a[1][1], str) and a[1][1].count('{}') == 1 \
+            and a[1][2] == ('some_of', scrut) and a[2] == ('Some', ('some_of', scrut)) and (b[2] == scrut or b[2] in (('path', 'None'), ('None',))):
+        return sel, m, 'real'
+    return None
 
 
 def check_keys_normalised(cx, rep):
@@ -624,9 +644,6 @@ def run(cx, tier='quick'):
     from .helpers import check_hash_type_tokens, check_type_with_meta, check_ident_or_index
     check_hash_type_tokens(cx, rep)
     check_keys_normalised(cx, rep)
-    # to_hash_type is built on common::type::dereference / dereference_changed ("strip every leading &")
-    from .c09 import check_dereference_helper
-    check_dereference_helper(cx, rep, 'SUM-INTO')
     check_type_with_meta(cx, rep, 'SUM-INTO')
     check_ident_or_index(cx, rep)
     from .scope import check_scopes
